@@ -139,6 +139,9 @@ def coq_project():
 def coq_make(targets, timeout=3000):
     """Full .vo build of the given targets (relative .vo paths).  Returns (ok, log_text)."""
     os.makedirs(os.path.join(OCAML, "gen"), exist_ok=True)   # extraction targets
+    for d in coq_dirs():
+        if any(f.startswith("Extract") for f in os.listdir(os.path.join(COQ, d))):
+            os.makedirs(os.path.join(OCAML, d, "_build"), exist_ok=True)
     with Lock("coq"):
         coq_project()
         rc, out, err = sh(["make", "-j%d" % NCPU, "-k"] + list(targets), cwd=COQ, timeout=timeout)
